@@ -7,29 +7,44 @@ from email.utils import formatdate
 
 import re
 
-from . import core, util, resp, c02, c05, c08
+from . import core, util, resp, c02, c05, c08, c14
 
 PID = "C04"
 MANIFEST = dict(
     text="Theorems request_view_equiv (headers mapping, client, body of the WSGI view of the CGI rendering = those of the ASGI view "
          "of the scope rendering of one abstract request, for distinct header names; host_view_equiv: HTTP_HOST of the environ = the "
          "value the ASGI Hosts' header loop ends with), response_equiv (every response recipe yields the same status, the same "
-         "header list and the same body bytes on both interfaces; the event-stream response differs only by the Connection header) "
-         "and app_equiv (by induction on an application tree of any depth: views that answer with response recipes, Router, Subpaths, "
-         "Hosts over any fullmatch oracle; for every abstract request the run built from the WSGI model functions of C08/C09/C04 and "
-         "the run built from the ASGI ones both answer with a response of the same status, body and header list, modulo the "
-         "event stream's Connection header; the 404 fallbacks included) about the Gallina models of both request classes, all "
-         "response classes and the three dispatchers. The models are compared with both live stacks, trees included; compositions "
-         "that have no model here (derived accessors, JSON/forms/uploads, Files/Pages incl. 304, decorators) are run differentially "
-         "on both stacks.",
+         "header list and the same body bytes on both interfaces; the event-stream response differs only by the Connection header), "
+         "static_equiv (for EVERY file system, configuration, path and header value the complete answer of baize.wsgi.Files / Pages "
+         "equals that of baize.asgi.Files / Pages: same status, same header list in the same order, same body bytes, or the same "
+         "HTTPException 404 / 400; nothing else happens), static_serves_file (on either interface a 200 / 206 body is exactly the "
+         "content, resp. the requested slices, of the regular file C07's lexical resolution names inside the directory; 304 has "
+         "Cache-Control, Vary, Content-Length: 0 and no body and is given exactly when C14's decision says so; a rejected Range "
+         "carries no file byte; everything else is HTTPException(404) or the slash redirect of Pages / HTTPException(400)), "
+         "static_redirect_location (for a request of C18's grammar the redirect is 307 with Location = iri_to_uri('//' + authority "
+         "+ root path + path + '/' + ['?' + query]), never 400) "
+         "and app_equiv / app_equiv_below (by induction on an application tree of any depth: views that answer with response recipes, "
+         "Router, Subpaths, Hosts over any fullmatch oracle, Files / Pages on any file system; for every abstract request the run "
+         "built from the WSGI model functions of C08/C09/C07/C14/C02/C18/C04 and the run built from the ASGI ones both answer with a "
+         "response of the same status, body and header list, modulo the event stream's Connection header — or, only where Files / "
+         "Pages take part, both raise the same HTTPException; the 404 fallbacks included) about the Gallina models of both request "
+         "classes, all response classes, the three dispatchers and the two static-file applications. The models are compared with "
+         "both live stacks, trees and static files included; compositions that have no model here (derived accessors, JSON/forms/"
+         "uploads, decorators) are run differentially on both stacks.",
     note="Modelled, not verified: the gateway's rendering of the abstract request (CGI naming, lower-cased scope names, the same text "
-         "for the root path and the path on both interfaces); header names are distinct ASCII tokens without '_' (how a gateway "
-         "joins repeated request headers is not baize's behaviour); app_equiv assumes of every view that it answers with recipes "
-         "response_equiv speaks about (no raising producer, no developer headers on an event stream, file chunk size >= 1); Files "
-         "and Pages are not constructors of the tree: they stay differential cases (decided by direct comparison of the two "
-         "implementations), their theorems being those of C07.",
+         "for the root path and the path on both interfaces: ASCII — a WSGI gateway presents a non-ASCII path as different text, "
+         "C07's known finding wsgi-non-ascii-not-found); header names are distinct ASCII tokens without '_' (how a gateway "
+         "joins repeated request headers is not baize's behaviour; URL(scope=) reads the first Host header, the environ holds the "
+         "last); app_equiv assumes of every view that it answers with recipes response_equiv speaks about (no raising producer, no "
+         "developer headers on an event stream, file chunk size >= 1) and of every Files / Pages that its directory is what "
+         "normalize_dir_path returns (absolute, normalised, not '/'), handle_404 = None, the scheme one of http/https/ws/wss. "
+         "Static files: the file system is a function of the path text, constant during a request, st_size = length of the content; "
+         "inputs as in C02/C14: float st_mtime, SHA-1, int(float), formatdate, parsedate_to_datetime, guess_type, the quoted "
+         "download name, the random boundary; urlsplit / urlunsplit as transcribed in C18/Model.v, strict UTF-8 decoding and "
+         "iri_to_uri's quote as transcribed in C04/Static.v (validated by the redirect cases); zero-copy send is C02's.",
     technique="Coq proof (equality of two models on the rendered request; per-recipe equality of two renderings; induction on the "
-              "application tree over the dispatch theorems of C08/C09) + executable model/implementation correspondence + differential runs",
+              "application tree over the dispatch theorems of C08/C09; static leaves composed from the models of C07/C14/C02/C18 "
+              "and proved from their theorems) + executable model/implementation correspondence + differential runs",
     ref="5/C04")
 RULE = ("cases: abstract requests (methods, 0-4 headers with mixed case incl. content-type/length, cookies, accept, queries, clients, "
         "bodies split into 0-3 chunks incl. empty ones) rendered as environ and as scope+messages; every response recipe of C05's "
@@ -37,15 +52,28 @@ RULE = ("cases: abstract requests (methods, 0-4 headers with mixed case incl. co
         "programs with views that write method, root path, path, typed path parameters and header mapping into the body; a 4-level "
         "nesting of Hosts, Subpaths and Router in both orders x 12 paths x 2 root paths x 3 hosts; every recipe below Hosts > "
         "Subpaths > Router; random trees of depth 1-3 and width 1-3 over pools of route texts, prefixes and host patterns with paths "
-        "and Host values aimed down the tree and perturbed); differential programs (derived accessors, json/form/multipart incl. "
+        "and Host values aimed down the tree and perturbed); static leaves against the model on both interfaces, header order "
+        "included: the real Files / Pages as root application and below Router / Subpaths / Hosts / nested dispatchers on generated "
+        "directory trees with fixed nanosecond mtime / ctime (39 paths: files, directories with and without slash and index page, "
+        "x.html fallback, a directory called d.html, fifo, '..', empty and relative paths; If-None-Match plain / weak / list / '*' / "
+        "malformed, If-Modified-Since before / at / after mtime and ctime and garbage, both headers in both orders; Range single / "
+        "several / unsatisfiable / malformed, If-Range ETag / weak / date / stale; GET / HEAD / POST; the Pages redirect over 9 "
+        "query strings incl. non-ASCII and invalid UTF-8, 12 Host forms incl. IPv6 and unclosed bracket, schemes, server addresses, "
+        "root paths with a space; four cacheability / max_age settings; files of 0 bytes, one chunk, one chunk + 1, two chunks); "
+        "differential programs (derived accessors, json/form/multipart incl. "
         "malformed, close() after a failed form, Router/Subpaths/Hosts tables, Files/Pages on a directory tree incl. conditional "
         "and range requests, request_response and decorator shortcuts); non-trivial = every case (each compares two implementations)")
 TRUSTED = ["the harness's rendering of an abstract request into an environ (CGI naming) and into a scope + messages",
            "Python's re.fullmatch as the oracle the Hosts model is parameterised by (answers computed by the harness)",
-           "the Unicode classes of non-ASCII characters in route texts, as the interpreter reports them (C08)"]
+           "the Unicode classes of non-ASCII characters in route texts, as the interpreter reports them (C08)",
+           "static leaves: the description of the generated directory tree handed to the model (os.stat kinds, contents, the fixed "
+           "timestamps of c14's virtual os.stat) and the standard-library values computed by the harness for it (SHA-1 of "
+           "'<float mtime>-<size>', int(float), formatdate, parsedate_to_datetime, guess_type, quote of the download name)"]
 ASSUMPTIONS = ["request header names are distinct ASCII tokens without underscore", "the peer address, when present, has a non-empty host",
                "application trees: every Route / Subpaths / Hosts of the tree can be constructed; root path and path are ASCII (a view "
-               "writes them into a body), the same text on both interfaces"]
+               "writes them into a body, Files / Pages look them up), the same text on both interfaces",
+               "static leaves: the directory is a normalised absolute path other than '/'; handle_404 is None; the scheme is http, "
+               "https, ws or wss; cacheability without CR / LF / NUL; no symbolic links; the tree does not change during a request"]
 EXHAUSTIVE = {"quick": False, "thorough": False}
 
 HEADER_POOL = [["Host", "example.org"], ["content-type", "application/json; charset=utf-8"], ["Content-Length", "12"],
@@ -72,9 +100,10 @@ def cgi_key(name):
     return k if k in ("CONTENT_TYPE", "CONTENT_LENGTH") else "HTTP_" + k
 
 
-def render(method, query, headers, client, body_chunks, path="/", root=""):
+def render(method, query, headers, client, body_chunks, path="/", root="", scheme="http", server=("testserver", 80)):
     body = b"".join(body_chunks)
-    env = util.wsgi_environ(method, path=path, script_name=root, query=query.decode("latin-1"), body=body)
+    env = util.wsgi_environ(method, path=path, script_name=root, query=query.decode("latin-1"), body=body, scheme=scheme,
+                            server=(server[0], str(server[1])))
     env.pop("REMOTE_ADDR", None)
     env.pop("REMOTE_PORT", None)
     if client:
@@ -83,7 +112,7 @@ def render(method, query, headers, client, body_chunks, path="/", root=""):
         env[cgi_key(k)] = v
     scope = util.http_scope(method, path=path, root_path=root, query=query,
                             headers=[(k.lower().encode("latin-1"), v.encode("latin-1")) for k, v in headers],
-                            client=tuple(client) if client else None)
+                            client=tuple(client) if client else None, scheme=scheme, server=(server[0], server[1]))
     chunks = list(body_chunks)
     msgs = [{"type": "http.request", "body": c, "more_body": i < len(chunks) - 1} for i, c in enumerate(chunks)] or \
         [{"type": "http.request", "body": b"", "more_body": False}]
@@ -330,6 +359,8 @@ def echo(name, status=200):
 def leaves_of(tree):
     if tree[0] == "leaf":
         yield tree[1]
+    elif tree[0] == "static":
+        yield ["static"] + list(tree[1])
     else:
         for _, sub in tree[1]:
             yield from leaves_of(sub)
@@ -444,32 +475,295 @@ def app_cases(tier, rng):
             yield "app-random", app_case(tree, path, rng.choice(["", "", "/root", "/r/s"]), host, hs, rng.choice(["GET", "POST", "DELETE"]))
 
 
+
+# ---------------------------------------------------------------- static leaves (model: C04/Static.v)
+# ["app", tree, method, root, path, headers, ["static", layout, query bytes, scheme, [server name, port]]]
+#   tree as above, plus the leaf ["static", [0 Files | 1 Pages, cacheability, max_age]]: the real baize.wsgi / baize.asgi
+#   Files / Pages on the directory of the layout.  os.stat is answered for the regular files of the layout from fixed
+#   nanosecond timestamps (c14's virtual stat), so that mtime, ctime and the float fields are the same in every run.
+
+NS = 10 ** 9
+S_BASE = 1_700_000_000
+STATIC_NSEC = [500_000_000, 0, 999_999_600, 300_000_000, 999_999_400]
+STATIC_GAP = [0, 100 * NS, 400_000_000, 3 * NS, 1]           # ctime - mtime
+CHUNK = 4096 * 64
+
+
+def _pattern(n):
+    return bytes((i * 7 + 3) % 251 for i in range(n))
+
+
+STATIC_LAYOUTS = {
+    "main": {"index.html": b"<h1>i</h1>", "a.txt": b"0123456789" * 3, "page.html": b"<p>p</p>", "x.html": b"<x/>",
+             "empty.txt": b"", "bin.dat": bytes(range(40)), "noext": b"no extension", "we ird.bin": b"\x00\x01\x02",
+             "sub/index.html": b"sub", "sub/inner.html": b"<i>inner</i>", "noidx/a.txt": b"na", "d.html/index.html": b"dh",
+             "both.html": b"file", "both/index.html": b"dir", "deep/d1/d2/f.txt": b"deep", "fifo": None},
+    "noindex": {"a.txt": b"abc", "sub/x.html": b"x"},
+    "tiny": {"a.txt": b"xy", "s": "DIR"},       # small enough for the kernel cross-check of the extraction
+    "chunk": {"one.dat": _pattern(CHUNK), "index.html": b"i"},
+    "chunk1": {"more.dat": _pattern(CHUNK + 1), "index.html": b"i"},
+    "chunk2": {"two.dat": _pattern(2 * CHUNK), "index.html": b"i"},
+}
+
+_static = {}
+_tmpl = {"tmpl": {}}
+
+
+def static_world(layout):
+    """the directory of a layout (built once per process), with what the model is told about it"""
+    import mimetypes
+    from hashlib import sha1
+    from urllib.parse import quote
+    key = (os.getpid(), layout)
+    w = _static.get(key)
+    if w is not None:
+        return w
+    root = os.path.join(util.tmpdir(), "w" + layout)
+    files = STATIC_LAYOUTS[layout]
+    os.makedirs(root, exist_ok=True)
+    nodes = {root: [1, 0]}
+    rows, ctypes = [], []
+    for j, (name, data) in enumerate(sorted(files.items())):
+        p = os.path.join(root, name)
+        d = os.path.dirname(p)
+        os.makedirs(d, exist_ok=True)
+        while d != root:
+            nodes[d] = [1, 0]
+            d = os.path.dirname(d)
+        if data is None:
+            if not os.path.exists(p):
+                os.mkfifo(p)
+            nodes[p] = [2, 0]
+            continue
+        if data == "DIR":
+            os.makedirs(p, exist_ok=True)
+            nodes[p] = [1, 0]
+            continue
+        if not os.path.exists(p):
+            with open(p, "wb") as f:
+                f.write(data)
+        mt = (S_BASE + 1000 * j) * NS + STATIC_NSEC[j % len(STATIC_NSEC)]
+        ct = mt + STATIC_GAP[j % len(STATIC_GAP)]
+        st = c14.vstat(_tmpl, p, len(data), mt - 5 * NS, mt, ct)
+        c14.VFS[p] = st
+        fid = j + 1
+        nodes[p] = [0, fid]
+        etag = sha1(("%s-%s" % (st.st_mtime, st.st_size)).encode("ascii")).hexdigest()
+        rows.append([fid, data, mt, ct, etag, int(st.st_mtime), int(st.st_ctime), formatdate(int(st.st_mtime), usegmt=True)])
+        ctype = mimetypes.guess_type(os.path.basename(p))[0] or "application/octet-stream"
+        disp = []
+        if ctype == "application/octet-stream":
+            dn = os.path.basename(p)
+            disp = ['attachment; filename="%s"; filename*=utf-8\'\'%s' % (dn, quote(dn))]
+        ctypes.append([p, ctype, disp])
+    os.stat = c14._vstat
+    w = {"dir": root, "cwd": os.getcwd(), "nodes": nodes, "rows": rows, "ctypes": ctypes}
+    _static[key] = w
+    return w
+
+
+def parse_date(text):
+    """what if_modified_since reads from the text: [] for empty / not a date, else [second]"""
+    from email.utils import parsedate_to_datetime
+    if not text:
+        return []
+    try:
+        return [int(parsedate_to_datetime(text).timestamp())]
+    except (TypeError, ValueError, OverflowError):
+        return []
+
+
+def enc_world(w, headers):
+    dates = [[v, parse_date(v)] for k, v in headers if k.lower() == "if-modified-since"]
+    return [w["cwd"], [[p, k, fid] for p, (k, fid) in sorted(w["nodes"].items())], w["rows"], w["ctypes"], dates, c02.BOUNDARY]
+
+
+STATIC_DECOYS = [["Accept", "*/*"], ["X-Range", "bytes=0-1"], ["If-Match", "*"], ["If-Unmodified-Since", "x"], ["Cookie", "a=1"]]
+STATIC_HOSTS = [None, "example.com", "h:8080", "[::1]:80", "[::1", "EXAMPLE.com", "", "a b", "x/y", "u@h", "h:", "h:abc"]
+STATIC_QUERIES = [b"", b"a=1&b=2", b"\xc3\xa9=1", b"\xff", b"x=%20y", b"a b", b"q=\xf0\x9f\x98\x80", b"\xed\xa0\x80", b"\xc0\xaf"]
+STATIC_PATHS = ["/a.txt", "/", "/index.html", "/page", "/page.html", "/sub", "/sub/", "/sub/inner", "/sub/index.html", "/missing",
+                "/missing/", "/noidx", "/noidx/", "/d.html", "/d.html/", "/empty.txt", "/bin.dat", "/noext", "/we ird.bin",
+                "/both", "/both/", "/both.html", "/deep/d1/d2/f.txt", "/deep/d1", "/fifo", "/../wmain/a.txt", "/../a.txt", "/a.txt/",
+                "/a.txt/x", "/./a.txt", "//a.txt", "/sub/../a.txt", "", "a.txt", "/x", "/x.html", "/index", "/sub/index", "/.."]
+
+
+def static_leaf(kind, cache="public", age=600):
+    return ["static", [kind, cache, age]]
+
+
+def static_case(tree, path, layout="main", headers=(), method="GET", root="", query=b"", scheme="http", server=("testserver", 80)):
+    return ["app", tree, method, root, path, [list(h) for h in headers], ["static", layout, query, scheme, list(server)]]
+
+
+def static_trees(kind):
+    """(label, tree, path prefix that leads to the static leaf, Host value it needs)"""
+    leaf = static_leaf(kind)
+    yield "root", leaf, "", None
+    yield "router", ["route", [["/api/{id:int}", echo("user")], ["{rest:any}", leaf]]], "", None
+    yield "subpaths", ["mount", [["/api", echo("A")], ["/static", leaf], ["", echo("D")]]], "/static", None
+    yield "hosts", ["hosts", [["example\\.com", echo("root")], ["static\\..*", leaf]]], "", "static.example.com"
+    yield "nested", ["hosts", [[".*", ["mount", [["/m", ["mount", [["/static", leaf], ["", echo("inner")]]]], ["", echo("outer", 201)]]]]]], "/m/static", None
+    yield "mount-router", ["mount", [["/s", ["route", [["/never", echo("n")], ["{p:any}", leaf]]]]]], "/s", None
+
+
+def cond_forms(etag, lm, msec, csec):
+    """header lists exercising the 304 decision for a file with these validators"""
+    bare = etag.strip('"')
+    d = lambda sec: formatdate(sec, usegmt=True)
+    inm = [etag, "W/" + etag, '"x", %s' % etag, 'W/"y" ,  W/%s\t, "z"' % etag, bare, "*", '"nomatch"', " * ", '"%s' % bare, "", "W/"]
+    ims = [d(msec - 10), d(msec), d(msec + 1), d(csec - 1), d(csec), d(csec + 10), "garbage", "", d(msec)[:-4],
+           "Tue, 14 Nov 2023 25:13:20 GMT", "Fri, 31 Dec 9999 23:59:59 GMT"]
+    for v in inm:
+        yield [["If-None-Match", v]]
+    for v in ims:
+        yield [["If-Modified-Since", v]]
+    for v, m in ((etag, d(msec - 10)), ('"nomatch"', d(csec + 10)), ("", d(csec + 10)), ("W/" + etag, "garbage"), ('"nomatch"', "")):
+        yield [["If-None-Match", v], ["If-Modified-Since", m]]
+        yield [["If-Modified-Since", m], ["If-None-Match", v]]
+
+
+def range_forms(etag, lm, size):
+    rs = ["bytes=0-4", "bytes=0-1,5-6", "bytes=%d-" % (size + 69), "bytes=2-1", "bytes=-5", "lines=1-2", "bytes=0-", "bytes=1-1", "",
+          "bytes=0-0,2-3,1-2", "bytes=%d-%d" % (max(size - 1, 0), size + 5), "bytes"]
+    for r in rs:
+        yield [["Range", r]]
+    for ifr in (etag, "W/" + etag, lm, formatdate(S_BASE - 100, usegmt=True), "garbage", "", etag.strip('"')):
+        yield [["Range", "bytes=1-3"], ["If-Range", ifr]]
+        yield [["If-Range", ifr], ["Range", "bytes=0-1,4-5"]]
+    yield [["If-Range", etag]]
+
+
+def vary_names(rng, hs):
+    return [[rng.choice([k, k.lower(), k.upper()]), v] for k, v in hs]
+
+
+def static_cases(tier, rng):
+    trees = {k: list(static_trees(k)) for k in (0, 1)}
+    # (a) every path of the pool x Files/Pages x every tree shape, plain GET
+    for kind in (0, 1):
+        for label, tree, prefix, host in trees[kind]:
+            for path in STATIC_PATHS:
+                hs = [["Host", host]] if host is not None else []
+                yield "static-paths", static_case(tree, prefix + path, headers=hs, root=rng.choice(["", "/root"]))
+    # (b) conditional requests, Range / If-Range and HEAD on served files, as root application and below the dispatchers
+    targets = {0: [("a.txt", "/a.txt"), ("empty.txt", "/empty.txt"), ("bin.dat", "/bin.dat"), ("sub/inner.html", "/sub/inner.html")],
+               1: [("page.html", "/page"), ("index.html", "/"), ("sub/index.html", "/sub/"), ("a.txt", "/a.txt"), ("both.html", "/both.html")]}
+    for kind in (0, 1):
+        for n, (name, url) in enumerate(targets[kind]):
+            etag, lm, msec, csec, size = static_validators("main", name)
+            conds, ranges = list(cond_forms(etag, lm, msec, csec)), list(range_forms(etag, lm, size))
+            forms = conds + ranges + [a + b for a in conds[::5] for b in ranges[::7]]
+            for k, hs in enumerate(forms):
+                shapes = trees[kind] if (tier == "thorough" or k % 6 == 0) else [trees[kind][(k + n) % len(trees[kind])]]
+                for label, tree, prefix, host in shapes:
+                    for method in (("GET", "HEAD") if (tier == "thorough" or k % 3 == 0) else ("GET",)):
+                        h2 = vary_names(rng, hs + rng.sample(STATIC_DECOYS, rng.randrange(0, 3)))
+                        if host is not None:
+                            h2.append(["Host", host])
+                        yield "static-conditional" if k < len(conds) else "static-range", \
+                            static_case(tree, prefix + url, headers=h2, method=method)
+    # (c) the redirect of Pages: query strings, Host header forms, schemes, server addresses, root paths
+    servers = [("testserver", 80), ("testserver", 8080), ("::1", 443), ("10.0.0.1", 80)]
+    for label, tree, prefix, host in trees[1]:
+        for path in ("/sub", "/noidx", "/both", "/deep/d1", "/d.html"):
+            for q in STATIC_QUERIES:
+                if host is not None:
+                    hosts = [host]
+                elif tier == "thorough" or path == "/sub":
+                    hosts = STATIC_HOSTS
+                else:
+                    hosts = STATIC_HOSTS[:3]
+                for h in hosts:
+                    hs = [["Host", h]] if h is not None else []
+                    yield "static-redirect", static_case(tree, prefix + path, headers=hs, query=q, root=rng.choice(["", "/root", "/r s"]),
+                                                         scheme=rng.choice(["http", "https"]), server=rng.choice(servers))
+    # (d) other configurations and layouts: cacheability, max_age, a directory without index page
+    for kind in (0, 1):
+        for cache, age in (("private", 0), ("no-cache", 31536000), ("no-store", -1), ("public", 10 ** 30)):
+            for path in ("/a.txt", "/sub", "/missing", "/"):
+                for hs in ([], [["If-None-Match", "*"]], [["Range", "bytes=0-0"]]):
+                    yield "static-config", static_case(static_leaf(kind, cache, age), path, headers=hs)
+        for path in ("/", "/a.txt", "/sub", "/sub/", "/sub/x", "/index.html"):
+            yield "static-layout", static_case(static_leaf(kind), path, layout="noindex")
+        for path in ("/a.txt", "/s", "/s/", "/a", "/b", ""):
+            for hs in ([], [["Range", "bytes=1-"]], [["If-None-Match", "*"]], [["Host", "h"]]):
+                yield "static-tiny", static_case(static_leaf(kind, "public", 1), path, layout="tiny", headers=hs, method=rng.choice(["GET", "HEAD"]))
+    # (e) files of exactly one chunk, one chunk + 1 byte and two chunks: whole, HEAD, ranges across the chunk border
+    big = [("chunk", "one.dat", CHUNK), ("chunk1", "more.dat", CHUNK + 1), ("chunk2", "two.dat", 2 * CHUNK)]
+    for layout, name, size in (big if tier == "thorough" else big[:2]):
+        for hs in ([], [["Range", "bytes=%d-" % (CHUNK - 1)]], [["Range", "bytes=0-%d" % (CHUNK - 1)]], [["Range", "bytes=5-10,%d-%d" % (CHUNK - 2, CHUNK + 2)]]):
+            for method in ("GET", "HEAD"):
+                if method == "HEAD" and hs and tier == "quick":
+                    continue
+                yield "static-chunk", static_case(["mount", [["/static", static_leaf(0)]]], "/static/" + name, layout=layout, headers=hs, method=method)
+    # (f) random
+    n = 400 if tier == "quick" else 8000
+    for _ in range(n):
+        kind = rng.randrange(2)
+        label, tree, prefix, host = rng.choice(trees[kind])
+        name, url = rng.choice(targets[kind])
+        etag, lm, msec, csec, size = static_validators("main", name)
+        hs = []
+        if rng.random() < 0.5:
+            hs += rng.choice(list(cond_forms(etag, lm, msec, csec)))
+        if rng.random() < 0.5:
+            hs += rng.choice(list(range_forms(etag, lm, size)))
+        hs += rng.sample(STATIC_DECOYS, rng.randrange(0, 3))
+        rng.shuffle(hs)
+        hs = vary_names(rng, hs)
+        if host is not None and rng.random() < 0.9:
+            hs.append(["Host", host])
+        elif rng.random() < 0.4:
+            hs.append(["Host", rng.choice([h for h in STATIC_HOSTS if h is not None])])
+        path = url if rng.random() < 0.6 else rng.choice(STATIC_PATHS)
+        yield "static-random", static_case(tree, prefix + path, headers=hs, method=rng.choice(["GET", "GET", "HEAD", "POST"]),
+                                           root=rng.choice(["", "/root"]), query=rng.choice(STATIC_QUERIES),
+                                           scheme=rng.choice(["http", "https", "ws"]), server=rng.choice([("testserver", 80), ("h2", 8443)]))
+
+
+def static_validators(layout, name):
+    """the validators of a file of a layout, computed as static_world does but without touching the disk
+    (cases() runs in the parent process)"""
+    from hashlib import sha1
+    files = STATIC_LAYOUTS[layout]
+    j = sorted(files).index(name)
+    mt = (S_BASE + 1000 * j) * NS + STATIC_NSEC[j % len(STATIC_NSEC)]
+    ct = mt + STATIC_GAP[j % len(STATIC_GAP)]
+    size = len(files[name])
+    etag = sha1(("%s-%s" % (c14.fl(mt), size)).encode("ascii")).hexdigest()
+    return '"%s"' % etag, formatdate(int(c14.fl(mt)), usegmt=True), int(c14.fl(mt)), int(c14.fl(ct)), size
+
+
 def cases(tier, rng):
     yield from req_cases(tier, rng)
     yield from derived_cases(tier, rng)
     yield from program_cases(tier, rng)
     yield from app_cases(tier, rng)
+    yield from static_cases(tier, rng)
 
 
 def search_cases(tier, rng, mism):
     yield from cases("thorough", rng)
 
 
-def enc_tree(tree, patterns):
+def enc_tree(tree, patterns, directory=None):
     kind, arg = tree
+    if kind == "static":
+        k, cache, age = arg
+        return ["static", [k, directory, cache, age]]
     if kind == "leaf":
         return ["leaf", ["fixed", resp.encode(arg[1])] if arg[0] == "fixed" else list(arg)]
     if kind == "hosts":
         out = []
         for pat, sub in arg:
             patterns.append(pat)
-            out.append([len(patterns) - 1, enc_tree(sub, patterns)])
+            out.append([len(patterns) - 1, enc_tree(sub, patterns, directory)])
         return ["hosts", out]
-    return [kind, [[k, enc_tree(sub, patterns)] for k, sub in arg]]
+    return [kind, [[k, enc_tree(sub, patterns, directory)] for k, sub in arg]]
 
 
 def route_texts(tree):
-    if tree[0] == "leaf":
+    if tree[0] in ("leaf", "static"):
         return
     for k, sub in tree[1]:
         if tree[0] == "route":
@@ -478,13 +772,18 @@ def route_texts(tree):
 
 
 def enc_app(case):
-    _, tree, method, root, path, headers = case
+    _, tree, method, root, path, headers = case[:6]
     patterns = []
-    t = enc_tree(tree, patterns)
+    directory = static_world(case[6][1])["dir"] if len(case) == 7 else None
+    t = enc_tree(tree, patterns, directory)
     texts = [""] + [v for k, v in headers if k.lower() == "host" and v != ""]
     rows = [[x, [1 if re.fullmatch(p, x) is not None else 0 for p in patterns]] for x in dict.fromkeys(texts)]
     chars = sorted({ch for r in route_texts(tree) for ch in r if ord(ch) >= 128})
-    return ["app", c08.int_limit(), [[ord(ch), c08.char_class(ch)] for ch in chars], t, method, root, path, [list(h) for h in headers], rows]
+    out = ["app", c08.int_limit(), [[ord(ch), c08.char_class(ch)] for ch in chars], t, method, root, path, [list(h) for h in headers], rows]
+    if len(case) == 7:
+        _, layout, query, scheme, server = case[6]
+        out += [query, scheme, [server[0], server[1]], enc_world(static_world(layout), headers)]
+    return out
 
 
 def enc_case(case):
@@ -603,13 +902,16 @@ def echo_text(name, request, kroot, kpath, kparams):
     return "|".join([name, request.method, request.get(kroot, ""), request.get(kpath, ""), params, headers])
 
 
-def build_tree(tree, iface):
+def build_tree(tree, iface, directory=None):
     """the live application of a tree, on one interface"""
     if iface == "wsgi":
         import baize.wsgi as B
     else:
         import baize.asgi as B
     kind, arg = tree
+    if kind == "static":
+        k, cache, age = arg
+        return (B.Files if k == 0 else B.Pages)(directory, cacheability=cache, max_age=age)
     if kind == "leaf":
         if arg[0] == "echo":
             _, name, status = arg
@@ -629,14 +931,58 @@ def build_tree(tree, iface):
                 return resp.build(recipe, "asgi")
         return B.request_response(view)
     cls = {"route": B.Router, "mount": B.Subpaths, "hosts": B.Hosts}[kind]
-    return cls(*[(k, build_tree(sub, iface)) for k, sub in arg])
+    return cls(*[(k, build_tree(sub, iface, directory)) for k, sub in arg])
 
 
 def canon_answer(x):
     return ["exc", x[1]] if x and x[0] == "exc" else x
 
 
+def answer_of_wsgi(app, env):
+    """like response_of_wsgi, but the header list stays in the order it was sent, and an HTTPException that
+    reaches the server is an observation of its own"""
+    from baize.exceptions import HTTPException
+    starts, items, exc = util.call_wsgi(app, env)
+    if exc is not None:
+        if isinstance(exc, HTTPException):
+            return ["http", exc.status_code] + ([repr(exc.headers), repr(exc.content)] if exc.headers or exc.content is not None else [])
+        return ["exc", type(exc).__name__]
+    if len(starts) != 1:
+        return ["starts", len(starts)]
+    status, headers = starts[0]
+    return [int(status.split(" ")[0]), [[k.lower(), v] for k, v in headers], b"".join(x for _, x in items)]
+
+
+def answer_of_asgi(app, scope, msgs=None):
+    from baize.exceptions import HTTPException
+    sent, exc = util.call_asgi(app, scope, msgs)
+    if exc is not None:
+        if isinstance(exc, HTTPException):
+            return ["http", exc.status_code] + ([repr(exc.headers), repr(exc.content)] if exc.headers or exc.content is not None else [])
+        return ["exc", type(exc).__name__]
+    if not sent or sent[0]["type"] != "http.response.start":
+        return ["nostart"]
+    body = b"".join(m.get("body", b"") for m in sent[1:])
+    return [int(sent[0]["status"]), [[k.decode("latin-1").lower(), v.decode("latin-1")] for k, v in sent[0].get("headers", [])], body]
+
+
+def impl_static(case):
+    _, tree, method, root, path, headers, (_, layout, query, scheme, server) = case
+    import baize.wsgi.responses as W
+    import baize.asgi.responses as A
+    W.random_choices = A.random_choices = lambda pop, k: list(c02.BOUNDARY[:k])
+    world = static_world(layout)
+    try:
+        app_w, app_a = build_tree(tree, "wsgi", world["dir"]), build_tree(tree, "asgi", world["dir"])
+    except Exception as e:  # noqa
+        return [["cfg"]]
+    env, scope, msgs = render(method, query, headers, ["127.0.0.1", 9], [], path=path, root=root, scheme=scheme, server=server)
+    return [answer_of_wsgi(app_w, env), answer_of_asgi(app_a, scope, msgs)]
+
+
 def impl_app(case):
+    if len(case) == 7:
+        return impl_static(case)
     _, tree, method, root, path, headers = case
     import baize.wsgi.responses as W
     import baize.asgi.responses as A
@@ -721,6 +1067,21 @@ def oracle(case, obs):
             i = [x != y for x, y in zip(obs[0], obs[1])].index(True)
             return ("request-view-differs-" + ("method", "headers", "client", "body")[i], "wsgi %r / asgi %r" % (obs[0][i], obs[1][i]))
         return None
+    if case[0] == "app" and len(case) == 7:
+        # static leaves: the same abstract request gets the same answer on both interfaces — status, header list in the
+        # order it is sent, body bytes, or the same HTTPException — and it is a response or an HTTPException
+        if len(obs) != 2:
+            return ("static-cfg", "the tree cannot be constructed: %r" % (obs,))
+        w, a = obs
+        if w != a:
+            if isinstance(w[0], int) and isinstance(a[0], int):
+                what = "status" if w[0] != a[0] else ("headers" if w[1] != a[1] else "body")
+            else:
+                what = "outcome"
+            return ("static-differs-" + what, "wsgi %r / asgi %r" % (w[:2], a[:2]))
+        if not (isinstance(w[0], int) or (w[0] == "http" and len(w) == 2)):
+            return ("static-no-answer", "both interfaces fail alike: %r" % (w,))
+        return None
     if case[0] == "app":
         if len(obs) != 2:
             return None                  # the tree cannot be constructed on either interface: nothing to compare
@@ -750,6 +1111,7 @@ def oracle(case, obs):
 
 
 def nontrivial(case, obs):
+    # every case compares two implementations (static leaves: the real Files / Pages on both interfaces, and the model)
     return True
 
 
